@@ -81,11 +81,16 @@ def _classes(pyrex):
             return Group(spec["children"])
         return cls(spec["x"], spec["y"], spec["n"], z0=spec.get("z0", -100.0))
 
+    class Holder(Detector):
+        """A detector made of ready-made sub-detectors."""
+        def set_positions(self, subs):
+            self.subsets.extend(subs)
+
     class LaxCombined(pyrex.detector.CombinedDetector, mirror_set_positions=False):
         """A combined detector that is allowed to hold antennas above the ice."""
         test_antenna_positions = False
 
-    _classes.cache = dict(LaxCombined=LaxCombined, ThrAntenna=ThrAntenna, StrPlain=StrPlain, StrA=StrA, StrB=StrB,
+    _classes.cache = dict(Holder=Holder, LaxCombined=LaxCombined, ThrAntenna=ThrAntenna, StrPlain=StrPlain, StrA=StrA, StrB=StrB,
                           Group=Group, make=make_detector)
     return _classes.cache
 
@@ -179,6 +184,7 @@ class C19Detector(Machine):
                       ("receive", 2.0), ("clear", 0.8), ("triggered", 1.5), ("access", 1.0),
                       ("bad_add", 0.6), ("bad_iadd", 0.6)]
         kinds.append(("bad_make", 0.4))
+        kinds.append(("late_build", 0.6))
         k = rng.weighted(kinds)
         if k in ("make", "bad_make"):
             spec = self._rand_spec(rng, self.cfg["depth"])
@@ -191,6 +197,16 @@ class C19Detector(Machine):
             if rng.chance(0.4):
                 kw["tag"] = rng.pick(["a", "b"])
             return {"op": "make", "slot": rng.randrange(N_SLOTS), "spec": spec, "kw": kw}
+        if k == "late_build":
+            leaves = [{"cls": rng.pick(["StrA", "StrA", "StrB", "StrPlain"]), "x": float(10 * j),
+                       "y": float(rng.randint(-20, 20)), "n": rng.randint(1, 3)} for j in range(rng.randint(3, 5))]
+            kw = {}
+            if rng.chance(0.7):
+                kw["threshold"] = rng.pick([0.2, 0.8])
+            if rng.chance(0.7):
+                kw["tag"] = rng.pick(["a", "b"])
+            return {"op": "late_build", "leaves": leaves, "n_iadd": rng.randint(0, 2), "nest": rng.chance(0.7),
+                    "kw": kw}
         if k == "add":
             other = rng.pick(["slot", "slot", "antenna", "list"])
             op = {"op": "add", "a": rng.pick(live), "dst": rng.randrange(N_SLOTS), "other": other}
@@ -345,6 +361,60 @@ class C19Detector(Machine):
             self._register(a)
         self._store(op["slot"], det, ants)
         return ["make", len(ants)]
+
+    def _op_late_build(self, op):
+        """Antennas are built only after the sub-detectors were combined (+, +=) and
+        nested: every leaf must still receive exactly the keywords it accepts."""
+        K = self.K
+        specs = op["leaves"]
+        leaves = [K["make"](s) for s in specs]
+        kw = dict(op["kw"])
+        acc = set()
+        for s in specs:
+            acc |= ACCEPTS_BUILD.get(s["cls"], {"threshold", "tag"})
+        kw = {k: v for k, v in kw.items() if k in acc}
+
+        def compose():
+            c = leaves[0] + leaves[1]
+            used = 2
+            for leaf in leaves[2:2 + op["n_iadd"]]:
+                c += leaf
+                used += 1
+            rest = leaves[used:]
+            top = K["Holder"]([c] + rest) if (rest or op["nest"]) else c
+            top.build_antennas(antenna_class=K["ThrAntenna"], **kw)
+            return top
+        st, top = self.sut(compose, where="late build_antennas")
+        want_pos = []
+        for s in specs:
+            want_pos.extend(spec_positions(s))
+        got_pos = [tuple(float(x) for x in a.position) for a in top]
+        if got_pos != [tuple(float(x) for x in p) for p in want_pos]:
+            raise Violation("C19:construction-order", "late-built detector visits %d antennas, %d expected "
+                            "in construction order" % (len(got_pos), len(want_pos)))
+        for leaf, s in zip(leaves, specs):
+            cls = s["cls"]
+            if cls == "StrPlain":
+                for a in leaf:
+                    if a.threshold != kw.get("threshold", 0.5) or a.tag != kw.get("tag"):
+                        raise Violation("C19:build-kwargs-lost", "antenna of a default string built with "
+                                        "threshold=%r tag=%r, keywords given %r" % (a.threshold, a.tag, kw))
+                continue
+            log = leaf.__dict__.get("build_log", [])
+            if len(log) != 1:
+                raise Violation("C19:build-not-dispatched", "sub-detector %s had build_antennas called %d "
+                                "times" % (cls, len(log)))
+            for key in ("threshold", "tag"):
+                if key in ACCEPTS_BUILD[cls]:
+                    want = kw.get(key, 0.5 if key == "threshold" else None)
+                    if log[0].get(key) != want:
+                        raise Violation("C19:build-kwargs-lost", "sub-detector %s accepts %r but received %r "
+                                        "(given %r)" % (cls, key, log[0].get(key), kw))
+            self.count("probe.kwargs_dispatch_checked")
+        self.count("probe.late_build")
+        if op["n_iadd"]:
+            self.nontrivial = True
+        return ["late_build", len(got_pos)]
 
     def _op_add(self, op):
         a, ma = self._need(op["a"])
